@@ -67,6 +67,69 @@ func lookupFunc(p gengotypes.Package, name string) *types.Func {
 	return f
 }
 
+// mentionsTypeParam: the type is written with a type parameter somewhere (a method of a generic type has its own copy
+// of the receiver's parameters, so such types are not compared)
+func mentionsTypeParam(t types.Type, depth int) bool {
+	if depth > 8 {
+		return false
+	}
+	switch x := t.(type) {
+	case *types.TypeParam:
+		return true
+	case *types.Named:
+		for i := 0; i < x.TypeArgs().Len(); i++ {
+			if mentionsTypeParam(x.TypeArgs().At(i), depth+1) {
+				return true
+			}
+		}
+		return x.TypeParams().Len() > 0 && x.TypeArgs().Len() == 0
+	case *types.Alias:
+		return mentionsTypeParam(types.Unalias(x), depth+1)
+	case *types.Pointer:
+		return mentionsTypeParam(x.Elem(), depth+1)
+	case *types.Slice:
+		return mentionsTypeParam(x.Elem(), depth+1)
+	case *types.Array:
+		return mentionsTypeParam(x.Elem(), depth+1)
+	case *types.Chan:
+		return mentionsTypeParam(x.Elem(), depth+1)
+	case *types.Map:
+		return mentionsTypeParam(x.Key(), depth+1) || mentionsTypeParam(x.Elem(), depth+1)
+	case *types.Signature:
+		for _, tu := range []*types.Tuple{x.Params(), x.Results()} {
+			for i := 0; i < tu.Len(); i++ {
+				if mentionsTypeParam(tu.At(i).Type(), depth+1) {
+					return true
+				}
+			}
+		}
+	case *types.Struct:
+		for i := 0; i < x.NumFields(); i++ {
+			if mentionsTypeParam(x.Field(i).Type(), depth+1) {
+				return true
+			}
+		}
+	case *types.Interface:
+		for i := 0; i < x.NumMethods(); i++ {
+			if mentionsTypeParam(x.Method(i).Type(), depth+1) {
+				return true
+			}
+		}
+		for i := 0; i < x.NumEmbeddeds(); i++ {
+			if mentionsTypeParam(x.EmbeddedType(i), depth+1) {
+				return true
+			}
+		}
+	case *types.Union:
+		for i := 0; i < x.Len(); i++ {
+			if mentionsTypeParam(x.Term(i).Type(), depth+1) {
+				return true
+			}
+		}
+	}
+	return false
+}
+
 // judgeResults: the clauses of C14 that need no model — shape, assignability, stability.
 func judgeResults(p gengotypes.Package, f *types.Func) (out string, n int, lens []int, verdict string) {
 	defer func() {
@@ -105,7 +168,7 @@ func judgeResults(p gengotypes.Package, f *types.Func) (out string, n int, lens 
 				if b, ok := a.Type.(*types.Basic); ok && b.Info()&types.IsUntyped != 0 {
 					continue
 				}
-				if strings.Contains(want.String(), "[") || strings.Contains(a.Type.String(), "[") {
+				if mentionsTypeParam(want, 0) || mentionsTypeParam(a.Type, 0) {
 					continue
 				}
 				return out, n, lens, fmt.Sprintf("result %d: alternative of type %s is not assignable to the declared %s", i, a.Type, want)
